@@ -287,7 +287,7 @@ def exhaustive_small(ctx):
 def widen_schedulers(ctx, r, cases):
     """dask's process pool for some of the dask cases (start-up cost: seconds per case)."""
     idx = [i for i, c in enumerate(cases) if c["mode"] == "obs_dask"]
-    for i in r.sample(idx, min(len(idx), ctx.budget(6, 40))):
+    for i in r.sample(idx, min(len(idx), ctx.budget(4, 40))):
         cases[i] = dict(cases[i], scheduler="processes")
 
 
@@ -301,9 +301,9 @@ def gen_cases(ctx: Ctx, salt="cases", scale=1):
     r = ctx.rng(salt)
     cyc = itertools.cycle(CLASSES)
     cases = corpus_cases() if salt == "cases" else []
-    n_exp = ctx.budget(6, 12) * scale
-    n_seq = ctx.budget(8, 16) * scale
-    n_dask = ctx.budget(5, 10) * scale
+    n_exp = ctx.budget(5, 12) * scale
+    n_seq = ctx.budget(6, 16) * scale
+    n_dask = ctx.budget(3, 10) * scale
     for _ in range(n_exp):
         cases += cases_of_scenario(r, scenario(r, "exposure", 18), cyc)
     for _ in range(n_seq):
